@@ -214,7 +214,7 @@ func runC18(c *Ctx) {
 		f := brk + m + "$1"
 		c.Guard(r4, f, "meta event delivery", `^call:router\.\(\*broker\)\.trySend\(`, 2, clause("not echoed to the causing session", F(`^\(\^subSessID == range\(%metaSub\.subscribers\)#k\.ID\)$`)))
 	}
-	c.Fields(r4, brk+"syncPubSubMeta$1$1", "subscription meta EVENT", "wamp.Event", nil, map[string]string{"Publication": `^\^pubID$`, "Subscription": `^\^metaSub\.id$`}, 1)
+	c.Fields(r4, brk+"syncPubSubMeta$1", "subscription meta EVENT", "wamp.Event", nil, map[string]string{"Publication": `^\^pubID$`, "Subscription": `^%metaSub\.id$`}, 2)
 	// dealer
 	sr := dlr + "syncRegister"
 	topic := func(t string) string { return `^store:new\(wamp\.Publish\)\.&Topic="wamp\.registration\.` + t + `"$` }
